@@ -14,6 +14,7 @@ Numerics are assumed through the residual bound only: the Newton solver returns 
 -/
 import WntrModel.Lemmas.LinkRowsReal
 import WntrModel.Gen.RowsC01
+import WntrModel.Gen.UpdaterC02
 
 set_option linter.unusedSimpArgs false
 set_option linter.unusedVariables false
@@ -226,6 +227,37 @@ theorem dd_reported_demand (l : List TS) (patStep : Int) (interp : Bool) (patSta
     (junctionStored false dv (expectedDemand l patStep interp patStart simTime dm) ls lr 0).1 =
       (l.map (fun d => d.base * entryMult d patStep interp (simTime + patStart) * dm)).sum := by
   simp only [junctionStored, dd_demand_formula]; simp
+
+/-! ### 6. the mass-balance row is rebuilt when the leak is switched or the junction's isolation changes -/
+
+/-- for every junction of the zoo, DD and PDD: `leak_status` and `_is_isolated` are registered with the ModelUpdater for the
+mode's own mass-balance Definition class (a dropped `updater.add(node, 'leak_status', …)` breaks this) -/
+theorem updater_registers_mass_balance :
+    (UpdaterC02.DD.junctionRegs.all fun r => subsetB (balanceDeps false) r.2) = true ∧
+    (UpdaterC02.PDD.junctionRegs.all fun r => subsetB (balanceDeps true) r.2) = true ∧
+    UpdaterC02.DD.junctionRegs.map (fun r => r.1) = RowsC01.DD.rows.map (fun r => r.junction) ∧
+    UpdaterC02.PDD.junctionRegs.map (fun r => r.1) = RowsC01.PDD.rows.map (fun r => r.junction) := by
+  refine ⟨?_, ?_, ?_, ?_⟩ <;> decide +kernel
+
+/-- flags of a junction's balance row -/
+def balanceUpdate (regs : List (String × String)) (cls : String) (built cur : Bool × Bool) : Bool × Bool :=
+  let changed := (if built.1 = cur.1 then [] else ["leak_status"]) ++ (if built.2 = cur.2 then [] else ["_is_isolated"])
+  if changed.any (fun a => regs.contains (a, cls)) then cur else built
+
+/-- with both attributes registered the row in the model carries the leak term iff the junction's CURRENT `leak_status` -/
+theorem leak_flag_consistent (pdd : Bool) (regs : List (String × String)) (built cur : Bool × Bool)
+    (hsub : subsetB (balanceDeps pdd) regs = true) :
+    balanceUpdate regs (if pdd then "pdd_mass_balance_constraint" else "mass_balance_constraint") built cur = cur := by
+  have hall : ∀ x ∈ balanceDeps pdd, x ∈ regs := by
+    intro x hx
+    have := List.all_eq_true.1 hsub x hx
+    simpa using this
+  have h1 := hall ("leak_status", if pdd then "pdd_mass_balance_constraint" else "mass_balance_constraint") (by simp [balanceDeps])
+  have h2 := hall ("_is_isolated", if pdd then "pdd_mass_balance_constraint" else "mass_balance_constraint") (by simp [balanceDeps])
+  obtain ⟨b1, b2⟩ := built
+  obtain ⟨c1, c2⟩ := cur
+  unfold balanceUpdate
+  by_cases e1 : b1 = c1 <;> by_cases e2 : b2 = c2 <;> simp [e1, e2, h1, h2]
 
 /-! ### non-vacuity -/
 
